@@ -1,11 +1,12 @@
 """C06 — race: the first child seen to resolve wins, immediately; the rest are cancelled."""
+from ..facts import base
 from .. import families, scan
 from . import racelike, flow, common, c20, c02, c03, c01, prims, joinlike
 
 PROPERTY = "C06"
 LEVEL = "other"
-CONFIGS_QUICK = ["std"]
-CONFIGS_THOROUGH = ["std", "alloc", "core"]
+CONFIGS_QUICK = ["std", "std-rel"]
+CONFIGS_THOROUGH = ["std", "alloc", "core", "std-rel", "alloc-rel", "core-rel"]
 EXPLANATION = (
     "Path and data-flow rules on the MIR of every race poll body (tuple arities 1-12, array, Vec): (WIN) on every child's Ready "
     "edge every path returns Ready(that child's payload) in the same call, sets `done`, and reaches no child-poll site nor the "
@@ -59,7 +60,7 @@ def run(ctx):
             c02.rule_own(ctx, M, only=lambda cp: cp in adts)
         n = joinlike.rule_ext(ctx, M, "future::futures_ext::FutureExt", "race", "race", "C06.EXT")
         ctx.require(n >= 1, "FutureExt::race")
-        na = 1 if cfg == "core" else 2
+        na = 1 if base(cfg) == "core" else 2
         ctx.floor("C06.WIN", cfg, 78 + na + 2 * (12 + na))
         ctx.floor("C06.SCAN", cfg, 78 + na + 12 + na)
         ctx.floor("C06.OWN", cfg, 12 + na)
